@@ -82,11 +82,14 @@ func TestVF_C04_F1Divergence(t *testing.T) {
 	}
 	// power failure of the voter while its fsync is still pending
 	c.Net.SetDead(h0.Addr, true)
+	h0.Mon.Freeze(true)
 	h0.FS.SetIgnoreSyncs(true)
 	close(release)
 	h0.NH.Close()
 	h0.FS.ResetToSyncedState()
 	h0.FS.SetIgnoreSyncs(false)
+	NormalizeNames(h0.FS, "/")
+	h0.Mon.Freeze(false)
 	h0.Up = false
 	h0.Mon.BeforeSave = nil
 	if err := h0.Start(); err != nil {
